@@ -542,6 +542,44 @@ fn check() {
     samples.push("a /* x */ + b".into());
     samples.push("let x = a ; y = b in x + y".into());
 
+
+    // ---- 5. names that begin with (or are followed by the letters of) a word of the language are names: a token
+    //         ends where its characters end, not where a keyword could be cut out of it
+    let mut word_cases = 0u64;
+    {
+        let id = |s: &str| Box::new(E::Id(s.to_string()));
+        let words = ["true", "false", "if", "then", "else", "let", "in", "and", "or", "xor", "not"];
+        let tails = ["st", "_1", "X", "9", "and"];
+        for w in words {
+            for t in tails {
+                let name = format!("{w}{t}");
+                let n = || E::Id(name.clone());
+                let cases_: Vec<(String, E)> = vec![
+                    (name.clone(), n()),
+                    (format!("{name} + b"), E::Bin("+".into(), Box::new(n()), id("b"))),
+                    (format!("a + {name}"), E::Bin("+".into(), id("a"), Box::new(n()))),
+                    (format!("a && {name} || b"), E::Bin("||".into(), Box::new(E::Bin("&&".into(), id("a"), Box::new(n()))), id("b"))),
+                    (format!("!{name}"), E::Un("!".into(), Box::new(n()))),
+                    (format!("({name})"), n()),
+                    (format!("{name} ? a : b"), E::Tern(Box::new(n()), id("a"), id("b"))),
+                    (format!("if {name} then a else b"), E::Tern(Box::new(n()), id("a"), id("b"))),
+                    (format!("if a then {name} else b"), E::Tern(id("a"), Box::new(n()), id("b"))),
+                    (format!("if a then b else {name}"), E::Tern(id("a"), id("b"), Box::new(n()))),
+                    (format!("let {name} = a in {name} + b"), E::Let(name.clone(), id("a"), Box::new(E::Bin("+".into(), Box::new(n()), id("b"))))),
+                    (format!("let x = {name} in x"), E::Let("x".into(), Box::new(n()), id("x"))),
+                    (format!("{name}.port"), E::Access(Box::new(n()), "port".into())),
+                    (format!("{name}[a]"), E::Index(Box::new(n()), id("a"))),
+                ];
+                for (text, tree) in cases_ {
+                    word_cases += 1;
+                    check_text(&chk, &st, &text, &to_value(&tree), "parser.names", &format!("name-begins-with-word:{w}"), "a name that begins with a word of the language");
+                }
+            }
+        }
+    }
+    cases += word_cases;
+    samples.push("let truest = a in truest + b".into());
+
     let parses = st.parses.load(std::sync::atomic::Ordering::Relaxed);
     let distinct = st.trees.len() as u64;
     if chk.violation_count() == 0 && (distinct < 100) {
